@@ -148,13 +148,48 @@ func factsC05(repo, out string) error {
 		txt := p.src(rs.Body)
 		resetViaAll = strings.Contains(txt, "v.All(") && strings.Contains(txt, ".Reset()")
 	}
-	// Close(): calls tx.variables.reset(), both buffers' Reset, and Put
+	// Close(): calls tx.variables.reset(), both buffers' Reset, and Put — on EVERY path: each call must be a
+	// top-level statement of Close (an expression statement, a defer, or the init of a top-level `if err := ...`)
+	// and no return statement (outside function literals) may precede it
 	closeFacts := []string{}
 	if cl, _ := p.findFunc("Transaction", "Close"); cl != nil {
-		txt := p.src(cl.Body)
+		var returns []token.Pos
+		var walk func(n ast.Node) bool
+		walk = func(n ast.Node) bool {
+			switch x := n.(type) {
+			case *ast.FuncLit:
+				return false
+			case *ast.ReturnStmt:
+				returns = append(returns, x.Pos())
+			}
+			return true
+		}
+		ast.Inspect(cl.Body, walk)
 		for _, want := range []string{"tx.variables.reset()", "tx.requestBodyBuffer.Reset()", "tx.responseBodyBuffer.Reset()", "tx.WAF.txPool.Put(tx)"} {
-			if strings.Contains(txt, want) {
-				closeFacts = append(closeFacts, want)
+			for _, st := range cl.Body.List {
+				var call ast.Expr
+				switch x := st.(type) {
+				case *ast.ExprStmt:
+					call = x.X
+				case *ast.DeferStmt:
+					call = x.Call
+				case *ast.IfStmt:
+					if as, ok := x.Init.(*ast.AssignStmt); ok && len(as.Rhs) == 1 {
+						call = as.Rhs[0]
+					}
+				}
+				if call == nil || p.src(call) != want {
+					continue
+				}
+				early := false
+				for _, r := range returns {
+					if r < st.Pos() {
+						early = true
+					}
+				}
+				if !early {
+					closeFacts = append(closeFacts, want)
+				}
 			}
 		}
 	}
